@@ -96,6 +96,11 @@ def lwShowVar (i : Nat) : String := s!"VarId({i})"
 def showIntList (l : List Int) : String := "[" ++ ", ".intercalate (l.map toString) ++ "]"
 def showVarList (l : List Nat) : String := "[" ++ ", ".intercalate (l.map lwShowVar) ++ "]"
 
+/-- struct names of the reified comparison propagators (`constraints/props/reification.rs`) -/
+def lwReifName : CmpOp → String
+  | .eq => "IntEqReif" | .ne => "IntNeReif" | .lt => "IntLtReif"
+  | .le => "IntLeReif" | .gt => "IntGtReif" | .ge => "IntGeReif"
+
 /-- Rust `Debug` rendering of the real propagator -/
 def showLP : LP → String
   | .eqVV x y => s!"Eq \{ x: {lwShowVar x}, y: {lwShowVar y} }"
@@ -111,6 +116,8 @@ def showLP : LP → String
   | .linEq cs xs c => s!"IntLinEq \{ coefficients: {showIntList cs}, variables: {showVarList xs}, constant: {c} }"
   | .linLe cs xs c => s!"IntLinLe \{ coefficients: {showIntList cs}, variables: {showVarList xs}, constant: {c} }"
   | .linNe cs xs c => s!"IntLinNe \{ coefficients: {showIntList cs}, variables: {showVarList xs}, constant: {c} }"
+  | .reif op x y b => s!"{lwReifName op} \{ x: {lwShowVar x}, y: {lwShowVar y}, b: {lwShowVar b} }"
+  | .boolOr ops r => s!"BoolOr \{ operands: {showVarList ops}, result: {lwShowVar r} }"
 
 /-- compact domain dump shared with the harness: long contiguous ranges as `[lo..hi#n]` -/
 def showDomC (d : Dom) : String :=
@@ -145,6 +152,8 @@ def lwShowFLP : FLP Float → String
   | .flinEq cs xs c => s!"FloatLinEq \{ coefficients: {lwShowFList cs}, variables: {showVarList xs}, constant: {lwShowF c} }"
   | .flinLe cs xs c => s!"FloatLinLe \{ coefficients: {lwShowFList cs}, variables: {showVarList xs}, constant: {lwShowF c} }"
   | .flinNe cs xs c => s!"FloatLinNe \{ coefficients: {lwShowFList cs}, variables: {showVarList xs}, constant: {lwShowF c} }"
+  | .reif op x y b => s!"{lwReifName op} \{ x: {lwShowVar x}, y: {lwShowVar y}, b: {lwShowVar b} }"
+  | .boolOr ops r => s!"BoolOr \{ operands: {showVarList ops}, result: {lwShowVar r} }"
 
 def lwShowFDom : FDom Float → String
   | .int d => showDomC d
